@@ -321,6 +321,19 @@ func (c *C) cmdErr(err error) error {
 	return c.wrapClientErr(err, c.serverName)
 }
 
+// quoteAddr returns the address the way it is written into a command: maddy
+// holds envelope addresses without the quoting of the local-part (that is how
+// the endpoint hands them over), written down like that '"john smith"@...' is
+// a syntax error for the server and a local-part like 'x@other.example> ORCPT=
+// rfc822;y' is read as another address followed by a parameter.
+func quoteAddr(addr string) string {
+	mbox, domain, err := address.Split(addr)
+	if err != nil || domain == "" {
+		return addr
+	}
+	return address.QuoteMbox(mbox) + "@" + domain
+}
+
 // Mail sends the MAIL FROM command to the remote server.
 //
 // SIZE and REQUIRETLS options are forwarded to the remote server as-is.
@@ -363,7 +376,7 @@ func (c *C) Mail(ctx context.Context, from string, opts smtp.MailOptions) error 
 		}
 	}
 
-	if err := c.cl.Mail(from, &outOpts); err != nil {
+	if err := c.cl.Mail(quoteAddr(from), &outOpts); err != nil {
 		return c.cmdErr(err)
 	}
 
@@ -423,7 +436,7 @@ func (c *C) Rcpt(ctx context.Context, to string, opts smtp.RcptOptions) error {
 		}
 	}
 
-	if err := c.cl.Rcpt(to, outOpts); err != nil {
+	if err := c.cl.Rcpt(quoteAddr(to), outOpts); err != nil {
 		return c.cmdErr(err)
 	}
 
